@@ -1,8 +1,4 @@
 package main
 
-type markupDoc struct{ All string }
-
-func genMarkupDoc(r *RNG) markupDoc { return markupDoc{All: r.soupDoc()} }
-func genTitleDoc(r *RNG) string    { return r.soupDoc() }
-func genTableDoc(r *RNG) string    { return r.soupDoc() }
-func genEmbedDoc(r *RNG) string    { return r.soupDoc() }
+func genTableDoc(r *RNG) string { return r.soupDoc() }
+func genEmbedDoc(r *RNG) string { return r.soupDoc() }
